@@ -30,6 +30,9 @@ Fixpoint span (p : N -> bool) (s : list N) : list N * list N :=
 Definition is_blank (c : N) : bool := (N.eqb c 32 || N.eqb c 9)%bool.
 Definition not_semi (c : N) : bool := negb (N.eqb c 59).
 
+Definition drop_semi (s : list N) : list N :=
+  match s with c :: s' => if N.eqb c 59 then s' else s | [] => s end.
+
 (* match at the start of s: (digits of nplurals, expression text, rest after the match) *)
 Definition pf_match_here (s : list N) : option (list N * list N * list N) :=
   match strip_prefix s_nplurals s with
@@ -40,7 +43,8 @@ Definition pf_match_here (s : list N) : option (list N * list N * list N) :=
       if (N.leb 49 d && N.leb d 57)%bool then
         let '(digits, s2) := span is_digit s1 in
         match s2 with
-        | 59%N :: s3 =>
+        | c2 :: s3 =>
+          if negb (N.eqb c2 59) then None else
           let '(_, s4) := span is_blank s3 in
           match strip_prefix s_plural s4 with
           | None => None
@@ -48,10 +52,10 @@ Definition pf_match_here (s : list N) : option (list N * list N * list N) :=
             let '(body, s6) := span not_semi s5 in
             match body with
             | [] => None
-            | _ => Some (digits, body, match s6 with 59%N :: s7 => s7 | _ => s6 end)
+            | _ => Some (digits, body, drop_semi s6)
             end
           end
-        | _ => None
+        | [] => None
         end
       else None
     | [] => None
